@@ -666,10 +666,15 @@ def check(run: Run) -> None:
         ("add_parameter", 33, ("ia", 2, [11, 12])),
     ]
     n_sys = 0
-    for _ in range(6 if thorough else 2):
+    # every other round: parameter 36 is read ONLY as a named / computed stoichiometric coefficient
+    base2 = base + [("add_derived", 34, 2, [33, 11]), ("add_parameter", 36, ("plain", 2)),
+                    ("add_reaction", 35, 4, [13, 12], [(16, ("named", 36)), (12, ("dyn", 1, [36]))])]
+    for rnd in range(8 if thorough else 4):
         for meth in METHODS:
             known = {11: "parameter", 12: "variable", 16: "variable", 13: "derived", 14: "reaction", 15: "surrogate", 31: "data",
                      32: "readout", 33: "parameter"}
+            if rnd % 2:
+                known |= {36: "parameter", 34: "derived", 35: "reaction"}
             for _try in range(20):
                 op = gen_op(rng, known)
                 if op[0] == meth:
@@ -677,7 +682,7 @@ def check(run: Run) -> None:
             else:
                 continue
             q1 = rng.choice([("q_args", None, 0), ("q_rhs", None, 1), ("q_ic",), ("q_derpar",)])
-            hists.append(base + [q1, op, ("q_ids",), ("q_args", None, 0), ("q_rhs", None, 0), ("q_ic",), ("q_parvals",), ("q_derpar",)])
+            hists.append((base2 if rnd % 2 else base) + [q1, op, ("q_ids",), ("q_args", None, 0), ("q_rhs", None, 0), ("q_ic",), ("q_parvals",), ("q_derpar",)])
             n_sys += 1
     n_rand = 4000 if thorough else 500
     for _ in range(n_rand):
@@ -736,6 +741,51 @@ def check(run: Run) -> None:
                 run.broken_correspondence.append(f"state machine/implementation disagree on history {kept[k * 100 + j]}")
     run.coverage["traces_validated_against_impl"] = len(coq_h) - mism
     run.coverage["correspondence_mismatches"] = mism
+    # a proof obligation or the correspondence broke but the oracle saw nothing wrong on this run's
+    # histories: search harder for a concrete failing history (implementation + fresh-rebuild oracle
+    # only; the Coq model is not consulted): `populate ; query ; mutator ; every query` for many
+    # argument choices of every mutator, the populated model using each parameter in a rate, a derived
+    # quantity, an initial assignment and as a named / computed stoichiometric coefficient
+    if (run.broken_obligations or run.broken_correspondence) and n_viol == 0:
+        found = _targeted_search(rng, base, 60)
+        run.coverage["targeted_search_histories"] = found[1]
+        if found[0] is not None:
+            h, viol = found[0]
+            run.violation(f"C03 step {viol[0]}: {viol[1]}", {"kind": "c03", "history": h[: viol[0] + 1]})
+
+
+def _targeted_search(rng, base: list[tuple], rounds: int):
+    """-> ((history, violation) | None, histories tried)"""
+    tried = 0
+    # parameter 36 is used ONLY as a named and as a computed stoichiometric coefficient (nothing else reads it)
+    populated = base + [("add_derived", 34, 2, [33, 11]), ("add_parameter", 36, ("plain", 2)),
+                        ("add_reaction", 35, 4, [13, 12], [(16, ("named", 36)), (12, ("dyn", 1, [36]))])]
+    known0 = {11: "parameter", 12: "variable", 16: "variable", 13: "derived", 14: "reaction", 15: "surrogate", 31: "data",
+              32: "readout", 33: "parameter", 36: "parameter", 34: "derived", 35: "reaction"}
+    tail = [("q_ids",), ("q_args", None, 0), ("q_rhs", None, 0), ("q_rhs", None, 1), ("q_ic",), ("q_parvals",), ("q_derpar",)]
+    for pop in (populated, base):
+        for _ in range(rounds):
+            for meth in METHODS:
+                op = None
+                for _try in range(30):
+                    cand = gen_op(rng, dict(known0))
+                    if cand[0] == meth:
+                        op = cand
+                        break
+                if op is None:
+                    continue
+                for q1 in (("q_args", None, 0), ("q_ic",)):
+                    h = pop + [q1, op] + tail
+                    tried += 1
+                    try:
+                        _obs, viol = run_history(h)
+                    except Discard:
+                        continue
+                    except Exception:  # noqa: BLE001 -- the search must not crash the check
+                        continue
+                    if viol is not None:
+                        return (h, viol), tried
+    return None, tried
 
 
 def replay(rep: dict) -> int:
